@@ -269,3 +269,7 @@ pub mod strict;
 
 // imperative interface to building open hypergraphs
 pub mod lax;
+
+// verification hooks (off by default)
+#[cfg(feature = "verif-hooks")]
+pub mod verif_shim;
